@@ -100,13 +100,13 @@ def run(c):
     quick = c.tier == "quick"
     S = c.scale
     shards = core.NCPU
-    npos = max(shards, int((400 if quick else 20000) * S))           # through the real program and in-process
-    nextra = int((3200 if quick else 60000) * S)                      # further in-process positions (rel)
+    npos = max(shards, int((400 if quick else 4800) * S))           # through the real program and in-process
+    nextra = int((3200 if quick else 24000) * S)                      # further in-process positions (rel)
     nasan = int((160 if quick else 3000) * S)                         # in-process, asan+ubsan
-    ngames = int((16000 if quick else 600000) * S)                    # bound: games (rel)
+    ngames = int((16000 if quick else 240000) * S)                    # bound: games (rel)
     ngames_asan = int((600 if quick else 20000) * S)
     nsample = max(4, int(npos * (0.15 if quick else 0.05)))           # iterated mode sample
-    it_timeout = 120 if quick else 5400
+    it_timeout = 120 if quick else 1500
     targets = [("rel", "h_pg"), ("asan", "h_pg"), ("rel", "texelutil")]
     if not quick:
         targets.append(("asan", "texelutil"))
@@ -188,7 +188,7 @@ def run(c):
         add("bound", H, "bound", c.seed * 1000 + 300 + i, max(1, ngames // shards))
     for i in range(na):
         add("bound_asan", HA, "bound", c.seed * 1000 + 400 + i, max(1, ngames_asan // na))
-    npath = int((800 if quick else 40000) * S)
+    npath = int((800 if quick else 9600) * S)
     for i in range(shards):
         add("pathstage", H, "pathstage", c.seed * 1000 + 500 + i, max(1, npath // shards))
     import time
